@@ -346,6 +346,10 @@ func (c *Component) sendAccountingUpdate(acctSession *AccountingSession, statsBy
 	}
 	acctSession.noteSent(rxBytes, txBytes, rxPackets, txPackets)
 	acctSession.mu.Unlock()
+	// Persist LastSent before the request leaves: a restart while the
+	// response is outstanding must not report less than what the server
+	// may already have received.
+	c.checkpointAcctSessionNow(acctSession)
 
 	session := &auth.Session{
 		SessionID:         acctSession.sessionID,
